@@ -3,6 +3,7 @@
   `S` lines answer with the L3 model's outputs and the L1 reference's outputs: `<L3> || <L1>`.
 -/
 import Dsi.Session
+import Dsi.Glue.MiscDriver
 open Dsi
 
 def kv (args : List String) (key : String) : Option String :=
@@ -40,11 +41,16 @@ def handle (line : String) : String :=
     let ops := ops.filter (· ≠ [])
     match toks with
     | "S" :: cfgs => runS cfgs ops
+    | "MW" :: cfgs => handleMW cfgs ops
+    | "AD" :: rest => handleAD rest body
     | _ => "bad-request"
   | [hd] =>
     let toks := (hd.splitOn " ").filter (· ≠ "")
     match toks with
     | "S" :: cfgs => runS cfgs []
+    | "Z" :: rest => handleZ rest
+    | "VB" :: rest => handleVB rest
+    | "TB" :: rest => handleTB rest
     | _ => "bad-request"
   | _ => "bad-request"
 
